@@ -50,6 +50,12 @@ def _job(task, msgs=('started', 'succeeded'), sn=1, ok=True):
 
 
 _L = {'op': 'loop'}
+
+
+def _TRIG(*tasks):
+    return {'op': 'cmd', 'name': 'force_trigger_tasks', 'args': {'tasks': list(tasks), 'flow': [], 'flow_wait': False}}
+
+
 _FAIL = ('started', 'failed')
 
 _CORPUS = {
@@ -80,7 +86,22 @@ _CORPUS = {
         _flow(_q('default', 1) + _q('q', 1, ['a']), graph='a & c & d', fcp=2, runahead=2),
         [_L] + _job('1/a') + _job('1/c', _FAIL) + [_L, _L] + _job('1/d') + _job('2/a') + [_L, _L] +
         _job('2/c') + [_L, _L] + _job('2/d') + [_L, _L, _L]),
+    # a task waits for a non-zero retry delay while another task has finished incomplete and nothing is active: NOT a
+    # stall (it runs again by itself); once the clock has moved on (tick) the retry is submitted
+    'retry-delay-is-not-a-stall': (
+        _flow(_q('q', 2, ['a', 'b']), graph='a & b', fcp=1, runahead=1,
+              runtime='    [[b]]\n        execution retry delays = PT1H\n'),
+        [_L] + _job('1/a', _FAIL) + _job('1/b', _FAIL) + [_L, _L, _L, {'op': 'tick', 'dt': 4000}, _L] +
+        _job('1/b', sn=2) + [_L, _L, _L]),
+    # a manually triggered task whose job fails with a retry lined up is submitted again (the manual-submit flag is
+    # cleared when the first job is handed over); the second job runs behind the limit of its queue as any other
+    'retry-of-a-triggered-task': (
+        _flow(_q('q', 1, ['a', 'b']), graph='a & b', fcp=1, runahead=1,
+              runtime='    [[a]]\n        execution retry delays = PT0S\n'),
+        [_TRIG('1/a'), _L] + _job('1/a', _FAIL) + [_L, _L, _L] + _job('1/b') + [_L, _L] + _job('1/a', sn=2) +
+        [_L, _L, _L]),
 }
+_POLICY = {'retry-delay-is-not-a-stall': {'vclock': True}, 'retry-of-a-triggered-task': {'live_submit': True}}
 
 
 class C03Q(SchedProp):
@@ -125,7 +146,7 @@ class C03Q(SchedProp):
             'slot); every automatic shutdown, every rise of the stall flag and every main loop of every run is judged; '
             'non-trivial = a limited queue held back a ready task over a main loop; classes = (kind, ending, '
             'finished-task-in-pool-while-a-limited-queue-holds-tasks, stall-event, launch count)')
-    kinds = ('qf', 'qa', 'qf', 'qc', 'cmdqf', 'qf', 'cmdq', 'qa')
+    kinds = ('qf', 'qa', 'qr', 'qc', 'cmdqf', 'cmdqtr', 'cmdq', 'qr', 'qf', 'cmdqtr')
     n_quick = 48
     n_thorough = 600
     gen_opts = {'p_stop': 0.25}
@@ -140,8 +161,14 @@ class C03Q(SchedProp):
     ]
 
     def corpus(self):
-        return [{'id': 'c03q-' + k, 'flow': flow, 'seed': 0, 'opts': {}, 'policy': {}, 'ops': ops,
+        return [{'id': 'c03q-' + k, 'flow': flow, 'seed': 0, 'opts': {}, 'policy': dict(_POLICY.get(k, {})), 'ops': ops,
                  'kind': 'corpus'} for k, (flow, ops) in _CORPUS.items()]
+
+    def translate(self):
+        # the model builds on Sched3QT, whose probed behaviour flags (Generated/Sched3QTCfg.lean) are produced by the
+        # C05S module: the same file, the same content, whichever check runs first
+        import c05s
+        return c05s.PROP.translate()
 
     def impl_batch(self, inputs):
         # a start-up time-out of the scheduler's server thread (overloaded machine) says nothing about the
